@@ -102,4 +102,24 @@ mod c08ext {
             Poll::Pending => assert!(false, "a slice reader never suspends"),
         }
     }
+    /// contract of the allocation primitive behind `vec![elem; n]`, as above: elements reserved <= bytes of input
+    fn from_elem_in_proportion<T: Clone>(_elem: T, n: usize) -> Vec<T> {
+        if n == 0 {
+            return Vec::new();
+        }
+        kani::cover!(true, "a non-empty vec![_; n] is reached");
+        assert!(n <= 64, "vec![_; n]: n elements allocated for an input of fewer than n bytes");
+        kani::assume(false);
+        Vec::new()
+    }
+    /// an LZ4 body whose 4-byte prefix announces 2 GiB of uncompressed data, followed by one byte
+    #[kani::proof]
+    #[kani::unwind(8)]
+    #[kani::stub(std::rt::thread_cleanup, noop)]
+    #[kani::stub(alloc::fmt::format, empty_string)]
+    #[kani::stub(std::vec::from_elem, from_elem_in_proportion)]
+    fn c08_lz4_uncompressed_len_alloc() {
+        static RAW: [u8; 5] = [0x7f, 0xff, 0xff, 0xff, 0x00];
+        let _r = std::mem::ManuallyDrop::new(decompress(&RAW[..], Compression::Lz4));
+    }
 }
